@@ -66,13 +66,19 @@ func vdPhase(p *PartialVdrKillReport, name string) *PartialVdrKillReport {
 }
 
 //verif:stub (*github.com/martian-lang/martian/martian/core.Fork).cleanSplitTemp
-func vdCleanSplit(self *Fork, p *PartialVdrKillReport) *PartialVdrKillReport { return vdPhase(p, "split") }
+func vdCleanSplit(self *Fork, p *PartialVdrKillReport) *PartialVdrKillReport {
+	return vdPhase(p, "split")
+}
 
 //verif:stub (*github.com/martian-lang/martian/martian/core.Fork).cleanChunkTemp
-func vdCleanChunk(self *Fork, p *PartialVdrKillReport) *PartialVdrKillReport { return vdPhase(p, "chunks") }
+func vdCleanChunk(self *Fork, p *PartialVdrKillReport) *PartialVdrKillReport {
+	return vdPhase(p, "chunks")
+}
 
 //verif:stub (*github.com/martian-lang/martian/martian/core.Fork).cleanJoinTemp
-func vdCleanJoin(self *Fork, p *PartialVdrKillReport) *PartialVdrKillReport { return vdPhase(p, "join") }
+func vdCleanJoin(self *Fork, p *PartialVdrKillReport) *PartialVdrKillReport {
+	return vdPhase(p, "join")
+}
 
 //verif:stub (*github.com/martian-lang/martian/martian/core.Fork).getVdrKillReport
 func vdGetReport(self *Fork) (*VDRKillReport, bool) { return &VDRKillReport{}, vdAlready }
@@ -102,7 +108,6 @@ func vdRemoveNoLock(self *Metadata, name MetadataFileName) error {
 
 //verif:stub os.Remove
 func vdRemove(name string) error { return errors.New("stub") }
-
 
 type vdWorld struct {
 	top      *TopNode
@@ -411,7 +416,7 @@ call P(
 `
 
 type vdReal struct {
-	ps                     *Pipestance
+	ps                  *Pipestance
 	g, h, i, j, k, l, m *Node
 }
 
@@ -526,7 +531,6 @@ func H_C04_realKeepAlive(which int) {
 		}
 	}
 }
-
 
 // ---- the per-node sweep: every fork of a mapped call is swept ----
 
